@@ -943,6 +943,110 @@ example : returned (calculate T0 1 { count := some 4 } { c2c := some 2, total :=
     returned (calculate T0 1 { count := some 4 } { c2c := some (1 / 2), total := some (1 / 8) }) =
       some (some 4, some (1 / 8)) ∧ TOL < absR (1 / (2 : ℚ) - 1) := by decide +kernel
 
+/-- (count, start size) reversed, end to end, for **every tolerance**: the chop `(count, end size = s)` with the mirrored
+    solver answer `1/c` resolves to the same count, the reciprocal ratio and the reciprocal total expansion — the root
+    validator of the reversed chop (`rootOK s (1/(1/c))`) is literally the one the original passed, the near-uniform branch
+    is taken by both or by neither.  (`count ≥ 2`: one cell with a smaller start size is the known finding.) -/
+theorem T_C03_invert_count_start {t : Tol} {L s : ℚ} {n : ℕ} {o : Oracle} {res : Vals} (hn : 2 ≤ n)
+    (h : calculate t L o { count := some n, start := some s } = .ok res) :
+    ∃ c, res.c2c = some c ∧ 0 < c ∧
+      ∃ res', calculate t L { o with c2c := some (1 / c) } { count := some n, end_ := some s } = .ok res' ∧
+        res'.count = res.count ∧ res'.total = res.total.map (fun T => 1 / T) ∧ res'.c2c = some (1 / c) := by
+  obtain ⟨c, T, e, hc, hT, he, rfl⟩ := pair_count_start h
+  obtain ⟨hL, hn1, hs0, hsL, hcase⟩ := c2cCountStart_ok hc
+  obtain ⟨_, _, _, hTv⟩ := totalCountC2c_ok hT
+  have hc0 : 0 < c := by
+    rcases hcase with ⟨_, rfl⟩ | ⟨_, _, rfl⟩ | ⟨_, _, _, hok⟩
+    · exact one_pos
+    · exact one_pos
+    · exact (rootOK_iff.mp hok).1
+  have hci : 0 < 1 / c := by positivity
+  have hend : c2cCountEnd t { o with c2c := some (1 / c) } L n s = .ok (1 / c) := by
+    unfold c2cCountEnd
+    simp only [guardLen_bind, guardCountGe1_bind, guardSize_bind]
+    rw [if_neg (not_le.mpr hL), if_neg (by omega), if_neg (not_le.mpr hs0)]
+    rcases hcase with ⟨h1, _⟩ | ⟨_, hu, rfl⟩ | ⟨_, hnu, _, hok⟩
+    · omega
+    · rw [if_pos hu]; simp [pure, Except.pure]
+    · rw [if_neg (not_lt.mpr hnu), if_neg (by omega)]
+      unfold oracleC2c
+      simp only [one_div_one_div]
+      rw [if_pos hok]
+      rfl
+  obtain ⟨s', hs'⟩ := startCountC2c_ok_of_pos (n := n) hL hn1 hci
+  refine ⟨c, rfl, hc0, (⟨some n, some s', some s, some (1 / c), some ((1 / c) ^ (n - 1))⟩ : Vals), ?_, rfl, ?_, rfl⟩
+  · rw [calculate_ok_iff (k := 1) (by exact plan_count_end), runSteps3]
+    refine ⟨{ count := some n, end_ := some s, c2c := some (1 / c) },
+      { count := some n, start := some s', end_ := some s, c2c := some (1 / c) }, ?_, ?_, ?_⟩
+    · simp only [applyRel, map_ok]
+      exact ⟨1 / c, hend, rfl⟩
+    · simp only [applyRel, map_ok]
+      exact ⟨s', hs', rfl⟩
+    · simp only [applyRel, map_ok]
+      refine ⟨_, ?_, rfl⟩
+      unfold totalCountC2c
+      simp only [guardLen_bind, guardCountGe1_bind, guardRatio_bind]
+      rw [if_neg (not_le.mpr hL), if_neg (by omega), if_neg (ne_of_gt hci)]
+      rfl
+  · simp only [Option.map_some, hTv, one_div, inv_pow]
+
+
+example : returned (calculate T0 1 { c2c := some 2 } { count := some 3, start := some (1 / 7) }) = some (some 3, some 4) ∧
+    returned (calculate T0 1 { c2c := some (1 / 2) } { count := some 3, end_ := some (1 / 7) }) =
+      some (some 3, some (1 / 4)) := by decide +kernel
+
+/-- (count, end size) reversed likewise (the start-size relation additionally demands `size < length`). -/
+theorem T_C03_invert_count_end {t : Tol} {L e : ℚ} {n : ℕ} {o : Oracle} {res : Vals} (hn : 2 ≤ n) (heL : e < L)
+    (h : calculate t L o { count := some n, end_ := some e } = .ok res) :
+    ∃ c, res.c2c = some c ∧ 0 < c ∧
+      ∃ res', calculate t L { o with c2c := some (1 / c) } { count := some n, start := some e } = .ok res' ∧
+        res'.count = res.count ∧ res'.total = res.total.map (fun T => 1 / T) ∧ res'.c2c = some (1 / c) := by
+  obtain ⟨c, s, T, hc, hs, hT, rfl⟩ := pair_count_end h
+  obtain ⟨hL, hn1, he0, hcase⟩ := c2cCountEnd_ok hc
+  obtain ⟨_, _, _, hTv⟩ := totalCountC2c_ok hT
+  have hc0 : 0 < c := by
+    rcases hcase with ⟨_, rfl⟩ | ⟨_, _, _, hok⟩
+    · exact one_pos
+    · exact one_div_pos.mp (rootOK_iff.mp hok).1
+  have hci : 0 < 1 / c := by positivity
+  have hTi : (1 / c) ^ (n - 1) ≠ 0 := pow_ne_zero _ (ne_of_gt hci)
+  have hstart : c2cCountStart t { o with c2c := some (1 / c) } L n e = .ok (1 / c) := by
+    unfold c2cCountStart
+    simp only [guardLen_bind, guardCountGe1_bind]
+    rw [if_neg (not_le.mpr hL), if_neg (by omega), if_neg (not_not.mpr ⟨heL, he0⟩), if_neg (by omega)]
+    rcases hcase with ⟨hu, rfl⟩ | ⟨_, hnu, _, hok⟩
+    · rw [if_pos hu]; simp [pure, Except.pure]
+    · rw [if_neg (not_lt.mpr hnu)]
+      unfold oracleC2c
+      simp only
+      rw [if_pos hok]
+      rfl
+  refine ⟨c, rfl, hc0, (⟨some n, some e, some (e * (1 / c) ^ (n - 1)), some (1 / c), some ((1 / c) ^ (n - 1))⟩ : Vals),
+    ?_, rfl, ?_, rfl⟩
+  · rw [calculate_ok_iff (k := 2) (by exact plan_count_start), runSteps3]
+    refine ⟨{ count := some n, start := some e, c2c := some (1 / c) },
+      { count := some n, start := some e, c2c := some (1 / c), total := some ((1 / c) ^ (n - 1)) }, ?_, ?_, ?_⟩
+    · simp only [applyRel, map_ok]
+      exact ⟨1 / c, hstart, rfl⟩
+    · simp only [applyRel, map_ok]
+      refine ⟨_, ?_, rfl⟩
+      unfold totalCountC2c
+      simp only [guardLen_bind, guardCountGe1_bind, guardRatio_bind]
+      rw [if_neg (not_le.mpr hL), if_neg (by omega), if_neg (ne_of_gt hci)]
+      rfl
+    · simp only [applyRel, map_ok]
+      refine ⟨_, ?_, rfl⟩
+      unfold endStartTotal
+      simp only [guardLen_bind, guardRatio_bind]
+      rw [if_neg (not_le.mpr hL), if_neg hTi]
+      rfl
+  · simp only [Option.map_some, hTv, one_div, inv_pow]
+
+
+example : returned (calculate T0 1 { c2c := some 2 } { count := some 3, end_ := some (4 / 7) }) = some (some 3, some 4) ∧
+    returned (calculate T0 1 { c2c := some (1 / 2) } { count := some 3, start := some (4 / 7) }) =
+      some (some 3, some (1 / 4)) := by decide +kernel
+
 /-! ### 7b. histories on one `Chop` object: `calculate` keeps no memory -/
 
 /-- Every `calculate` inside a history of calls on one object answers exactly what a fresh chop with the current
